@@ -12,17 +12,21 @@ structure Rbuf where
   head : Nat
   tail : Nat
   buf  : Buf Nat
+  triple : Triple := .conf     -- the allocator triple copied from the conf struct
   deriving Repr, DecidableEq
 
 namespace Rbuf
 
-/-- `cc_rbuf_conf_new` -/
-def new (cap : Nat) (m : Mem) : Stat × Option Rbuf × Mem :=
-  let a1 := m.alloc
+/-- `cc_rbuf_conf_new` with the triple of the conf struct (`cc_rbuf_new` passes the C library's) -/
+def newT (t : Triple) (cap : Nat) (m : Mem) : Stat × Option Rbuf × Mem :=
+  let a1 := m.allocT t
   if !a1.1 then (.errAlloc, none, a1.2) else
-  let a2 := a1.2.alloc
-  if !a2.1 then (.errAlloc, none, a2.2.free) else
-  (.ok, some { size := 0, cap := cap, head := 0, tail := 0, buf := Buf.mk cap }, a2.2)
+  let a2 := a1.2.allocT t
+  if !a2.1 then (.errAlloc, none, a2.2.freeT t) else
+  (.ok, some { size := 0, cap := cap, head := 0, tail := 0, buf := Buf.mk cap, triple := t }, a2.2)
+
+/-- `cc_rbuf_conf_new` with the caller's allocator triple -/
+def new (cap : Nat) (m : Mem) : Stat × Option Rbuf × Mem := newT .conf cap m
 
 /-- `cc_rbuf_enqueue` -/
 def enqueue (r : Rbuf) (x : Nat) (m : Mem) : Rbuf × Mem :=
@@ -42,8 +46,13 @@ def dequeue (r : Rbuf) (m : Mem) : Stat × Option Nat × Rbuf × Mem :=
   let m := m.check (r.cap != 0)
   (.ok, some out, { r with tail := (r.tail + 1) % r.cap, size := r.size - 1 }, m)
 
-/-- `cc_rbuf_destroy` -/
-def destroy (_r : Rbuf) (m : Mem) : Mem := m.free.free
+/-- `cc_rbuf_destroy`: both blocks go back through the buffer's own triple -/
+def destroy (r : Rbuf) (m : Mem) : Mem := (m.freeT r.triple).freeT r.triple
+
+/-- `cc_rbuf_peek(rbuf, int index)`: the raw slot, 0 outside `[0, capacity)` -/
+def peek (r : Rbuf) (i : Int) (m : Mem) : Nat × Mem :=
+  if i < 0 ∨ r.cap ≤ i.toNat then (0, m)
+  else ((r.buf.get i.toNat), m.check (i.toNat < r.buf.length))
 
 def isEmpty (r : Rbuf) : Bool := r.size = 0
 
